@@ -91,7 +91,7 @@ CHECKS["C08"] = dict(
 
 CHECKS["C09"] = dict(
    technique="property-based testing (Hypothesis): generated (example family, parameters, real class member, start point); the modelled method is re-implemented in numpy and run on the real member (differential against the bound returned by the shipped example), with extremal members in the generators",
-   text="Generated-input search over 58 method families (gradient, momentum, line-search, coordinate, proximal, inexact-proximal, splitting, Frank-Wolfe, stochastic with exact expectation, fixed-point, monotone-operator, adaptive methods and potential functions), parameters in the documented ranges, real members of the declared classes (incl. the published worst cases: Huber functions with the extremal knee, rotations, extreme-curvature quadratics, c|x|, M|x|_inf in dimension n+1), dimensions and starting points: the real performance never exceeds the returned bound (1e-4 relative). The largest ratio reached per family is reported (>= 0.99 for 40 of 54 ratio families in the quick tier).",
+   text="Generated-input search over 59 method families (gradient, momentum, line-search, coordinate, proximal, inexact-proximal, splitting, Frank-Wolfe, stochastic with exact expectation, fixed-point, monotone-operator, adaptive methods and potential functions), parameters in the documented ranges, real members of the declared classes (incl. the published worst cases: Huber functions with the extremal knee, rotations, extreme-curvature quadratics, c|x|, M|x|_inf in dimension n+1), dimensions and starting points: the real performance never exceeds the returned bound (1e-4 relative). The largest ratio reached per family is reported (>= 0.99 for 40 of 54 ratio families in the quick tier).",
    note="Trusted: the numpy re-implementations (from the docstrings), vf/members.py, CLARABEL. Members are a subset of each class; randomized methods are evaluated through the exact expectation over the finite sample space; bounds are computed with CLARABEL also where an example does not forward a solver.",
    design="DESIGN.md §3 C09")
 CHECKS["C10"] = dict(
